@@ -22,7 +22,7 @@ func init() {
 			"testdrv time stamps carry one constant offset per session (Listen stamps the real clock, Sleep moves a virtual one): the monitor requires one offset in [-60 s, 0] consistent with every delivery; exact stamps are decided at the drivers.Reader level",
 			"F8..FF are all treated as real-time (delivered as one-byte messages)",
 		},
-		Require: []string{"runs_l1", "runs_l2", "elisions", "rt_inside_message", "rt_inside_sysex", "sysex_exact_buffer", "split_inside_message", "deliveries_checked", "generator_crosschecks", "sysex_sweep_lengths", "sandwich_chunks", "reconfigured_sessions"},
+		Require: []string{"runs_l1", "runs_l2", "elisions", "rt_inside_message", "rt_inside_sysex", "sysex_exact_buffer", "split_inside_message", "deliveries_checked", "generator_crosschecks", "sysex_sweep_lengths", "sandwich_chunks", "reconfigured_sessions", "clock_wrap_streams", "giant_sysex_streams"},
 		Run:     runC04,
 	})
 }
@@ -382,6 +382,78 @@ func runC04(c *mon.Ctx) {
 			}
 		}
 		c.DistinctBytes([]byte(fmt.Sprint("reconf", i)))
+	})
+
+	// ---- a very long pause (the int32 millisecond clock passes 2^31) while decoder state is pending:
+	// running status, a message split over two chunks, a sysex in progress. Content and completing
+	// call must be exact; time stamps are compared modulo 2^32 (the clock is 32 bits wide).
+	c.Each("clock-wrap", c.N(60, 3000), func(i int64, r *mon.Rand) {
+		cfg := liveCfg{sysex: true, clock: true, sense: true, buf: uint32(r.Pick(0, 64))}
+		msgs := [][]byte{{0x90, 1, 2}, {0x90, 3, 4}, {0xF0, 1, 2, 3, 4, 5, 0xF7}, {0xB1, 7, 8}, {0xB1, 9, 10}, {0xC2, 5}, {0xC2, 6}, {0xF2, 1, 2}}
+		w := gen.Serialize(nil, msgs, gen.SerOpts{ElideAll: true})
+		L := len(w.Bytes)
+		cut := 1 + int(i)%(L-1)
+		big := int32(r.Pick(1<<31-1, 1<<31-1000, 1<<30, 2_000_000_000))
+		pre := int32(r.Pick(0, 5, 1000, 1<<30))
+		chunks := [][]byte{w.Bytes[:cut], w.Bytes[cut:]}
+		deltas := []int32{pre, big}
+		in := map[string]any{"bytes": mon.Hex(w.Bytes), "cut": cut, "deltas_ms": deltas, "config": cfg.String()}
+		var got []obs
+		if c.Guard("panic:reader", in, func() { got = runL1(cfg, chunks, deltas, nil) }) {
+			return
+		}
+		c.Count("clock_wrap_streams", 1)
+		if len(got) != len(w.Deliveries) {
+			c.Violation("l1-count", fmt.Sprintf("a pause of %d ms (the 32-bit millisecond clock passes 2^31) between the two chunks: %d messages sent, %d delivered", big, len(w.Deliveries), len(got)), in, mon.HexList(w.Deliveries), obsList(got))
+			return
+		}
+		for j, o := range got {
+			kind, n := normL1(o.msg)
+			wantChunk := 0
+			if w.EndIdx[j] >= cut {
+				wantChunk = 1
+			}
+			if kind != "msg" || !bytes.Equal(n, w.Deliveries[j]) || o.chunk != wantChunk {
+				c.Violation("l1-content", fmt.Sprintf("after a pause of %d ms: delivery %d is %s in call %d, expected %s in call %d", big, j, mon.Hex(o.msg), o.chunk, mon.Hex(w.Deliveries[j]), wantChunk), in, mon.HexList(w.Deliveries), obsList(got))
+				return
+			}
+			wantTs := int32(int64(pre))
+			if wantChunk == 1 && w.Deliveries[j][0] != 0xF0 {
+				wantTs = int32(int64(pre) + int64(big)) // wraps like the driver's int32 clock
+			}
+			if w.Deliveries[j][0] != 0xF0 && o.ts != wantTs {
+				c.Violation("l1-timestamp", fmt.Sprintf("delivery %d (%s): time stamp %d, expected %d (accumulated deltas modulo 2^32)", j, mon.Hex(n), o.ts, wantTs), in, wantTs, o.ts)
+				return
+			}
+		}
+		c.DistinctBytes([]byte(fmt.Sprint("wrap", i, cut, big, pre)))
+	})
+
+	// ---- one giant instance: a sysex of 18 MiB under a 24 MiB buffer
+	c.Each("giant-sysex", c.N(1, 4), func(i int64, r *mon.Rand) {
+		n := []int{18 << 20, 16<<20 + 1, 17 << 20, 33 << 20}[i%4]
+		buf := uint32(n + 1 + int(i)*4096)
+		sx := make([]byte, n)
+		sx[0], sx[n-1] = 0xF0, 0xF7
+		for j := 1; j < n-1; j += 4099 {
+			sx[j] = byte(j) & 0x7F
+		}
+		stream := append(append([]byte{0x93, 0x3C, 0x64}, sx...), 0xF8, 0x83, 0x3C, 0x00)
+		cfg := liveCfg{sysex: true, clock: true, sense: true, buf: buf}
+		var got []obs
+		in := map[string]any{"sysex_total_length": n, "config": cfg.String()}
+		if c.Guard("panic:reader", in, func() { got = runL1(cfg, [][]byte{stream[:n/2], stream[n/2:]}, []int32{1, 2}, nil) }) {
+			return
+		}
+		c.Count("giant_sysex_streams", 1)
+		if len(got) != 4 || len(got[1].msg) != n || !bytes.Equal(got[1].msg, sx) {
+			lens := []int{}
+			for _, o := range got {
+				lens = append(lens, len(o.msg))
+			}
+			c.Violation("l1-giant-sysex", fmt.Sprintf("a sysex of %d bytes under SysExBufferSize %d: delivered message lengths %v, expected [3 %d 1 3]", n, buf, lens, n), in, []int{3, n, 1, 3}, lens)
+		}
+		c.DistinctBytes([]byte(fmt.Sprint("giant", n)))
 	})
 
 	c.Each("random", c.N(20_000, 3_000_000), func(i int64, r *mon.Rand) {
